@@ -63,6 +63,13 @@ func (t *TempoController) Trace(w http.ResponseWriter, r *http.Request) {
 		PromError(500, err.Error(), w)
 		return
 	}
+	spans := res
+	defer func() { // whatever ends this handler early, the producer must not stay blocked
+		go func() {
+			for range spans {
+			}
+		}()
+	}()
 
 	switch accept {
 	case "application/protobuf":
